@@ -237,6 +237,8 @@ class Builder:
             src = [s for s in src if s[0] != "own-complete"]
         if not src:
             return None
+        if kind in ("complete", "silent") and r.random() < self.p.get("p_multi", 0.0):
+            return self.multi_ref_arg(src, kind)
         s = r.choice(src)
         meth = None
         if kind == "complete":
@@ -248,6 +250,42 @@ class Builder:
         if kind == "complete" and r.random() < 0.25:
             pre = [["lit", r.choice(["-f ", "--x="])]]
             self.flags.add("ref_embedded")
+        return self.one_ref(s, kind, meth, pre, post)
+
+    def multi_ref_arg(self, src, kind) -> List[List[Any]]:
+        """ONE parameter value that holds SEVERAL complete output references (a list of files to merge):
+        '<a>/f:ref <b>/g:ref', '%(first)s/f:ref %(second)s/f:ref', a forwarded (possibly itself multiple) value
+        next to a sibling reference, ...  Sources are drawn with replacement: the same producer may appear with
+        another file / method, or the very same reference twice.  Each reference draws its own spelling, so the
+        value mixes <a/f>:m, <a>/f:m, "<a>"/f:m at random; separators contain white space only (what follows a
+        :method is free text for the language)."""
+        r = self.r
+        n = r.choice([2, 2, 2, 3, 3, 4])
+        parts: List[List[Any]] = []
+        if kind == "complete" and r.random() < 0.3:
+            parts.append(["lit", r.choice(["-f ", "--x=", "cat "])])
+        origins = []
+        for i in range(n):
+            s = r.choice(src)
+            origins.append(s[0])
+            meth = r.choice(METHODS_ARG if kind == "complete" else METHODS_SILENT)
+            if i:
+                parts.append(["lit", r.choice([" ", " ", "  ", " -i ", " --in="]) if kind == "complete" else " "])
+            parts += self.one_ref(s, kind, meth, [], [])
+        if kind == "complete" and r.random() < 0.2:
+            parts.append(["lit", r.choice([" >all", " end"])])
+        self.flags.add("multi_ref_value")
+        if sum(1 for o in origins if o == "sib") >= 2:
+            self.flags.add("multi_ref_direct")
+        if sum(1 for o in origins if o != "sib") >= 2:
+            self.flags.add("multi_ref_forwarded")
+        if kind == "silent":
+            self.flags.add("multi_ref_silent")
+        return parts
+
+    def one_ref(self, s, kind, meth, pre, post) -> Optional[List[List[Any]]]:
+        """the EXPR parts of one reference taken from source `s` (see ref_sources)"""
+        r = self.r
         if s[0] == "sib":
             if kind == "partial":
                 self.flags.add("partial_passed_down")
@@ -766,8 +804,10 @@ def evaluate(model: Dict[str, Any]) -> Dict[str, Any]:
                 edges.append([part[1], part[2]])
         idp = [p["name"] for p in t["params"] if p["role"] == "id"][0]
         ident = "".join(str(x[1]) for x in cenv[idp])
+        # the largest number of output references that ONE parameter value of this leaf holds
+        max_refs = max([sum(1 for part in v if part[0] == "ref") for v in cenv.values()] or [0])
         leaves.append({"loc": list(loc), "step": loc[-1], "template": t["name"], "args": args, "fields": fields,
-                       "env": envd, "raw_edges": edges, "ident": ident,
+                       "env": envd, "raw_edges": edges, "ident": ident, "max_refs_in_one_value": max_refs,
                        "variables": dict(t["variables"]),
                        "params": sorted(p["name"] for p in t["params"])})
 
@@ -922,6 +962,16 @@ def mutants(rnd, model: Dict[str, Any], doc: Dict[str, Any], truth) -> List[Dict
                     add("bad-reference-" + label,
                         "output references must name a sibling step; the method goes outside <>", d,
                         where=["workflows", wi, "execute", ei])
+                # one bad reference next to a good one in the SAME value (every reference of a value counts)
+                good = [s for s in step_names if s != target and T[w["steps"][s]]["kind"] == "C"]
+                if good:
+                    for label, text in (("after-good", "<%s>/f.txt:ref <ghost-step>/g.txt:ref" % good[0]),
+                                        ("before-good", "<ghost-step>:output -i <%s>/f.txt:ref" % good[-1])):
+                        d = clone()
+                        d["workflows"][wi]["execute"][ei].setdefault("args", {})[pn[0]] = text
+                        add("bad-reference-ghost-" + label,
+                            "every output reference in a value must name a sibling step", d,
+                            where=["workflows", wi, "execute", ei])
                 # cousin: a step that exists in another workflow only
                 others = [s for w2 in wfs if w2 is not w for s in w2["steps"] if s not in w["steps"]]
                 if others:
